@@ -23,6 +23,8 @@ import (
 // cmdLeadRun (C15): an old leader (real Campaign, real OnStartedLeading) writes a history with
 // many failed writes, then a restarted node over the same store becomes leader through the same
 // code path; the revisions it hands out are recorded relative to the old leader's seed.
+var tsoDisarmed int32
+
 func cmdLeadRun(args []string) int {
 	fs := flag.NewFlagSet("leadrun", flag.ExitOnError)
 	out := fs.String("out", "", "trace output")
@@ -70,6 +72,9 @@ func cmdLeadRun(args []string) int {
 			var calls int64
 			n := int64(*tsoFault)
 			env.Store.TsoFault = func() error {
+				if atomic.LoadInt32(&tsoDisarmed) != 0 {
+					return nil // (the fault belongs to the take-over; the driver's own reads afterwards are not to meet it)
+				}
 				if atomic.AddInt64(&calls, 1) == n {
 					return errors.New("injected: oracle unavailable")
 				}
@@ -106,6 +111,7 @@ func cmdLeadRun(args []string) int {
 		go le.Campaign()
 		select {
 		case <-started:
+			atomic.StoreInt32(&tsoDisarmed, 1)
 		case <-time.After(6 * time.Second):
 			return env, 0, false
 		}
@@ -190,6 +196,7 @@ func cmdLeadRun(args []string) int {
 	log(gate.Event{"e": "Stored", "max": rel(maxStored), "seed_old": shift, "requests": reqs, "engine": *engine})
 	// restart: a new node instance with the same identity over the same store
 	probeEarly = true
+	atomic.StoreInt32(&tsoDisarmed, 0)
 	b, seedB, ok := startNode("node-1")
 	if !ok {
 		fmt.Println("the restarted node did not become leader in time")
